@@ -122,7 +122,7 @@ func main() {
 	for n := 2; n <= 5; n++ {
 		sweep(c, fmt.Sprintf("exdisc%d", n), n, disc, all, false, workers)
 	}
-	if c.Thorough() {
+	if c.Tier == "thorough" { // not in the search tier: the sweep does not scale down
 		off := int(c.Seed % 6)
 		if off < 0 {
 			off = 0
